@@ -17,6 +17,21 @@ def sh(cmd, **kw):
 def head():
     return sh('git -C /repo rev-parse --short HEAD').stdout.strip()
 
+_DIGEST = None
+
+
+def rules_digest():
+    """Digest of the checking machinery: results on an unchanged base tree are reused while it is the same."""
+    global _DIGEST
+    if _DIGEST is None:
+        import hashlib
+        h = hashlib.sha1()
+        for f in sorted(list((V / 'rules').glob('*.py')) + list((V / 'sa').glob('*.py')) + [V / 'known_findings.json']):
+            h.update(f.read_bytes())
+        _DIGEST = h.hexdigest()[:12]
+    return _DIGEST
+
+
 def check_keys(pid, t, w):
     """Run one check on tree t; return (set of failing keys incl. known ones, rc, stdout)."""
     e = dict(os.environ, VERIF_REPO=str(t), VERIF_EVIDENCE_DIR=str(w / 'ev'), VERIF_OUT_DIR=str(w / 'out'))
@@ -47,9 +62,17 @@ def run_one(d, checks=None):
         r = subprocess.run(['/venv/bin/python', str(w / 'demo.py')], cwd=t, env=env, capture_output=True, text=True, timeout=600)
         res['demo_clean_exit'] = r.returncode
         base_keys, base_rc = {}, {}
+        cache = Path('/tmp/seedcache') / f'{base}-{rules_digest()}.json'
+        cached = json.loads(cache.read_text()) if cache.exists() else {}
         for pid in (checks or ALL):
             if (V / 'rules' / f'{pid.lower()}.py').exists():
-                base_keys[pid], base_rc[pid], _ = check_keys(pid, t, w)
+                if pid in cached:
+                    base_keys[pid], base_rc[pid] = set(cached[pid][0]), cached[pid][1]
+                else:
+                    base_keys[pid], base_rc[pid], _ = check_keys(pid, t, w)
+                    cached[pid] = [sorted(base_keys[pid]), base_rc[pid]]
+        cache.parent.mkdir(exist_ok=True)
+        cache.write_text(json.dumps(cached))
         r = sh(f'git -C {t} apply {d / "patch.diff"}')
         if r.returncode:
             res['error'] = 'patch does not apply: ' + r.stderr[:200]; return res
